@@ -28,6 +28,17 @@ def dtapeV : FVal → Nat → List Tok
       (dtapeFirst first (base + 1) ++ dtapeF rest (base + 1 + fcntFirst first) ++
         [.mixedContainer, (m0.tok []).erase] ++ dtapeI items (base + 1 + fcntFirst first + fcntF rest + 2)) ++
       [.endTok base]
+  | .arrSM _ _ s0 pre _ m0 _ o items _, base =>
+    [.array (base + 1 + 1 + fcntVs pre + 3 + fcntI items) true] ++
+      ([(s0.tok []).erase] ++ dtapeVs pre (base + 1 + 1) ++
+        [.mixedContainer, (m0.tok []).erase, .operator o] ++ dtapeI items (base + 1 + 1 + fcntVs pre + 3)) ++
+      [.endTok base]
+  | .arrCM _ first pre _ m0 _ o items _, base =>
+    [.array (base + 1 + fcntV first + fcntVs pre + 3 + fcntI items) true] ++
+      (dtapeV first (base + 1) ++ dtapeVs pre (base + 1 + fcntV first) ++
+        [.mixedContainer, (m0.tok []).erase, .operator o] ++
+        dtapeI items (base + 1 + fcntV first + fcntVs pre + 3)) ++
+      [.endTok base]
 def dtapeFirst : FFirst → Nat → List Tok
   | .kv k _ o v, base => [(k.tok []).erase] ++ o.toks ++ dtapeV v (base + 1 + o.toks.length)
   | .flds f, base => dtapeF f base
@@ -83,6 +94,13 @@ theorem ftapeV_erase : ∀ (v : FVal) (b : Nat) (a : Bytes), (ftapeV v b a).map 
   | .mixed _ _ first rest gm m0 items gc, b, a => by
     simp only [ftapeV, dtapeV, List.map_append, List.map_cons, List.map_nil, ftapeFirst_erase first,
       ftapeF_erase rest, ftapeI_erase items, Scal.tok_erase m0, erase_object, erase_endTok, erase_mixed]
+  | .arrSM _ _ s0 pre gm m0 go o items gc, b, a => by
+    simp only [ftapeV, dtapeV, List.map_append, List.map_cons, List.map_nil, Scal.tok_erase s0, Scal.tok_erase m0,
+      ftapeVs_erase pre, ftapeI_erase items, erase_array, erase_endTok, erase_mixed, erase_operator]
+  | .arrCM _ first pre gm m0 go o items gc, b, a => by
+    simp only [ftapeV, dtapeV, List.map_append, List.map_cons, List.map_nil, Scal.tok_erase m0,
+      ftapeV_erase first, ftapeVs_erase pre, ftapeI_erase items, erase_array, erase_endTok, erase_mixed,
+      erase_operator]
 theorem ftapeFirst_erase : ∀ (f : FFirst) (b : Nat) (a : Bytes), (ftapeFirst f b a).map Tok.erase = dtapeFirst f b
   | .kv k g1 o v, b, a => by
     simp only [ftapeFirst, dtapeFirst, List.map_append, List.map_cons, List.map_nil, Scal.tok_erase k,
@@ -140,6 +158,8 @@ def stripV : FVal → FVal
   | .arrC _ first rest _ => .arrC [] (stripV first) (stripVs rest) []
   | .ghostIn _ _ _ v => stripV v
   | .mixed _ _ first rest _ m0 items _ => .mixed [] [] (stripFirst first) (stripF rest) [] m0 (stripI items) []
+  | .arrSM _ _ s0 pre _ m0 _ o items _ => .arrSM [] [] s0 (stripVs pre) [] m0 [] o (stripI items) []
+  | .arrCM _ first pre _ m0 _ o items _ => .arrCM [] (stripV first) (stripVs pre) [] m0 [] o (stripI items) []
 def stripFirst : FFirst → FFirst
   | .kv k _ o v => .kv k [] o (stripV v)
   | .flds f => .flds (stripF f)
@@ -173,6 +193,9 @@ theorem fcnt_stripV : ∀ v : FVal, fcntV (stripV v) = fcntV v
   | .ghostIn _ _ _ v => by simp only [stripV, fcntV, fcnt_stripV v]
   | .mixed _ _ first rest _ _ items _ => by
     simp only [stripV, fcntV, fcnt_stripFirst first, fcnt_stripF rest, fcnt_stripI items]
+  | .arrSM _ _ _ pre _ _ _ _ items _ => by simp only [stripV, fcntV, fcnt_stripVs pre, fcnt_stripI items]
+  | .arrCM _ first pre _ _ _ _ items _ => by
+    simp only [stripV, fcntV, fcnt_stripV first, fcnt_stripVs pre, fcnt_stripI items]
 theorem fcnt_stripFirst : ∀ f : FFirst, fcntFirst (stripFirst f) = fcntFirst f
   | .kv _ _ _ v => by simp only [stripFirst, fcntFirst, fcnt_stripV v]
   | .flds f => by simp only [stripFirst, fcntFirst, fcnt_stripF f]
@@ -210,6 +233,11 @@ theorem dtape_stripV : ∀ (v : FVal) (b : Nat), dtapeV (stripV v) b = dtapeV v 
   | .mixed _ _ first rest _ _ items _, b => by
     simp only [stripV, dtapeV, fcnt_stripFirst, fcnt_stripF, fcnt_stripI, dtape_stripFirst first,
       dtape_stripF rest, dtape_stripI items]
+  | .arrSM _ _ _ pre _ _ _ _ items _, b => by
+    simp only [stripV, dtapeV, fcnt_stripVs, fcnt_stripI, dtape_stripVs pre, dtape_stripI items]
+  | .arrCM _ first pre _ _ _ _ items _, b => by
+    simp only [stripV, dtapeV, fcnt_stripV, fcnt_stripVs, fcnt_stripI, dtape_stripV first, dtape_stripVs pre,
+      dtape_stripI items]
 theorem dtape_stripFirst : ∀ (f : FFirst) (b : Nat), dtapeFirst (stripFirst f) b = dtapeFirst f b
   | .kv _ _ _ v, b => by simp only [stripFirst, dtapeFirst, dtape_stripV v]
   | .flds f, b => by simp only [stripFirst, dtapeFirst, dtape_stripF f]
